@@ -73,6 +73,9 @@ ASSUMPTIONS = ["pthread_spin_lock (_con_spl) gives mutual exclusion: a critical 
                "the batch buffer is a byte list in the model (no capacity / reallocation): correct use of the std::string when an "
                "append reallocates is covered by the tie only, with batches aimed at the capacity read from "
                "`_batchmsgs_buffer.reserve(...)` in runtime/session.cpp (82,240 bytes) and at twice that",
+               "the persisters are not thread-safe: in pm_thread both the senders (send_process) and the reader thread "
+               "(update_persist_seqnums) take Session::_per_spl around their puts -- the model's answer for the harness's "
+               "overlap counter (a Persister wrapper with an in-flight counter that dwells 20 us in every put) is OVERLAP 0",
                "virtual clock frozen during a concurrent phase (SendingTime constant); plain messages (no custom seqnum / "
                "no_increment / SequenceReset / preset MsgSeqNum) with SOH- and NUL-free values"]
 RULE = ("one real session per case (initiator / acceptor, memory / file / no persister, start numbers 1, 2, 9.., 99.., 999..), "
@@ -86,7 +89,8 @@ RULE = ("one real session per case (initiator / acceptor, memory / file / no per
         "blocks >= 64 KB until two more messages are through); batches of 79-170 messages (up to 8 KB each) whose total size is just below / exactly at / just above the capacity of "
         "Session::_batchmsgs_buffer (parsed from the tree under test) with the crossing on the last or an inner message, a second "
         "crossing at twice the capacity, sequentially (BATCH) and inside CONC in both process models, with foreign singles; long "
-        "single messages; small cases aimed at the boundaries (empty program, one "
+        "single messages; pm_thread cases in which the counterparty streams 150-300 valid Heartbeats while 2-4 threads send (the reader "
+        "thread's control-record puts against the senders' puts; OVERLAP must be 0); small cases aimed at the boundaries (empty program, one "
         "thread, batch of one, two CONC phases, a foreign single inside a batch); malformed operations. non-trivial = at "
         "least 2 threads with messages and at least 20 messages on the wire; distinct = distinct case lines")
 
@@ -528,6 +532,19 @@ def growth_case(rng, pm, nthreads, nbatches, size=2000, at=0.2, san=None, counts
     return st + "|CONC " + " ".join("+".join(p) if p else "-" for p in progs)
 
 
+def inbound_case(rng, nthreads, lo, hi, nin, san=None):
+    """pm_thread with a persister and a counterparty that streams `nin` valid Heartbeats (consecutive numbers after the
+    Logon) into the socket while the threads send and batch: the reader thread's update_persist_seqnums (under _per_spl)
+    runs against the senders' persister puts.  Memory persister: the interleaving of the control-record puts is not
+    observable, so the trace stays schedule-independent."""
+    st = "START I mem pm=thread asa=0 hb=30" + (" san=" + san if san else "")
+    logon = S.fixmsg("A", 1, "SRV", "CLI", [(98, 0), (108, 30)]).hex()
+    hbs = ",".join(S.fixmsg("0", 2 + i, "SRV", "CLI").hex() for i in range(nin))
+    conc = conc_op(rng, nthreads, lo, hi, budget=1500, kinds="SSPR", bkinds="BC")
+    toks = conc.split(" ")
+    return "%s|IN %s|%s" % (st, logon, " ".join(toks[:2] + ["in=" + hbs] + toks[2:]))
+
+
 def small_cases(rng, pm):
     cs = []
     d = lambda t, i: S.spec("D", [(11, "t%d.%d" % (t, i)), (21, "1"), (55, "IBM"), (54, "1"), (60, S.ts(S.T0)), (40, "1")])
@@ -606,6 +623,12 @@ def gen_cases(rng, tier):
         for _ in range(12):
             cs.append(Case(contention_case(rng, rng.choice(["thread", "thread", "coro"]), rng.randint(4, 8), rng.choice([400, 500]),
                                            rng.choice(["R", "RS", "RSP", "RRSP"]), rng.choice(["", "BC"])), "contention-mixed"))
+    # inbound Heartbeats processed by the reader thread while 2-4 threads send (persister puts from both sides)
+    for _ in range(6 if thorough else 3):
+        cs.append(Case(inbound_case(rng, rng.randint(2, 4), 60, 150, rng.choice([150, 300])), "inbound-flow"))
+    if thorough:
+        for rep in range(4):
+            cs.append(Case(inbound_case(rng, rng.randint(2, 4), 40, 100, 200, san="tsan"), "tsan-inbound-flow"))
     if thorough:
         # the same under ThreadSanitizer; a few repetitions of every shape (the schedule differs every time)
         for rep in range(10):
@@ -645,7 +668,7 @@ def nontrivial(case, r):
 
 
 def _conc_progs(op):
-    return [t for t in op.split(" ")[1:] if t and not t.startswith("y=") and not t.startswith("tick=")]
+    return [t for t in op.split(" ")[1:] if t and not t.startswith("y=") and not t.startswith("tick=") and not t.startswith("in=")]
 
 
 def shrink(case):
@@ -655,7 +678,7 @@ def shrink(case):
     for k in range(len(ops) - 1, -1, -1):
         if ops[k].startswith("CONC"):
             toks = ops[k].split(" ")
-            opts = [t for t in toks[1:] if t.startswith("y=") or t.startswith("tick=")]
+            opts = [t for t in toks[1:] if t.startswith("y=") or t.startswith("tick=") or t.startswith("in=")]
             progs = _conc_progs(ops[k])
             halves = []
             for p in progs:
